@@ -441,6 +441,10 @@ func (x *runner) lin(class string, addr net.Addr, raw []byte) string {
 	}
 	if want := x.expected(a, raw, tb, !strings.HasSuffix(tbs, fmt.Sprintf("q=%d", 128))); pmsg == "" && !matchDecision(want, dec) {
 		x.viol("listener-decision", fmt.Sprintf("%s: datagram (%s) from %s with table %q: the listener did %q, the property asks for %q", x.cfg.name, class, a, tbs, dec, want))
+		if pl, ok := x.plainOf(raw); ok && len(pl) >= 12 && binary.LittleEndian.Uint16(pl[4:]) == 0xf3 {
+			// C19: an out-of-band frame is routed by (source address, conversation id) like any other
+			x.viol("listener-oob-decision", fmt.Sprintf("%s: OOB frame (%s, conv %d) from %s with table %q: the listener did %q, the property asks for %q", x.cfg.name, class, binary.LittleEndian.Uint32(pl[8:]), a, tbs, dec, want))
+		}
 	}
 
 	// --- frame oracle: sessions other than the one mapped at `a` (before or after) are untouched
